@@ -188,6 +188,16 @@ class Check(PropertyCheck):
         if [id(o) for o in d.subscribers] != [id(o) for o in want_subs]:
             res.append(("unsubscribe", f"{base.__name__} x{len(obs)} + history subscribed, `{obs[victim].label}` unsubscribed: "
                         f"subscribers are now {[getattr(o, 'label', type(o).__name__) for o in d.subscribers]}"))
+        # an observer that is NOT subscribed (built with subscribe=False) and the one just unsubscribed are handed to a composite:
+        # being aggregated is not being subscribed - neither of them is notified by the dispatcher, directly or through the composite
+        from job_shop_lib.dispatching.feature_observers import CompositeFeatureObserver
+        detached = cls(d, subscribe=False)
+        detached.label = "detached"
+        comp_members = [o for k, o in enumerate(obs) if k != victim][:1] + [detached, obs[victim]]
+        try:
+            CompositeFeatureObserver(d, feature_observers=comp_members)
+        except Exception:  # pylint: disable=broad-except
+            pass
         calls.clear()
         if not tr.done():
             j, p, m = gen.gen_valid_request(r, tr)
@@ -196,8 +206,9 @@ class Check(PropertyCheck):
         labels = [o.label for k, o in enumerate(obs) if k != victim]
         want_calls = ([(l, "U") for l in labels] if not tr.done() else []) + [(l, "R") for l in labels]
         if calls != want_calls:
-            res.append(("unsubscribe", f"{base.__name__} x{len(obs)} subscribed, `{obs[victim].label}` unsubscribed, then one dispatch "
-                        f"and a reset: calls received {calls}, expected {want_calls}"))
+            res.append(("unsubscribe", f"{base.__name__} x{len(obs)} subscribed, `{obs[victim].label}` unsubscribed, one more built with "
+                        f"subscribe=False (`detached`), a composite over subscribed and unsubscribed ones, then one dispatch and a reset: "
+                        f"calls received {calls}, expected {want_calls}"))
         return res
 
     def oracle(self, impl, scenario, index, line, out, ctx):
